@@ -83,6 +83,13 @@ def expected(tr, o):
     return drvrender.expected(tr, o)
 
 
+def jmpleak(tr):
+    """the class of runs in which a stale JmpErrors counter can matter: -Y, and a jump error in an earlier file"""
+    fs = tr["files"]
+    return bool(tr["o"].get("throw")) and len(fs) > 1 and any(
+        ln["k"] in ("tjmp", "pjmp") for f in fs[:-1] for ln in f)
+
+
 def wrap16(tr):
     return any(f["emE"] >= 65536 or f["emW"] >= 65536 for f in tr["exp"]["files"])
 
@@ -104,7 +111,7 @@ def judge(rep, tr, job, res, dialect):
     files["dialect"] = dialect
     files["stdout.txt"] = res.out[-4000:]
     files["stderr.txt"] = res.err[-4000:]
-    rep.violation(what, case=tr, files=files, key={"kind": "+".join(kinds), "wrap16": wrap16(tr)})
+    rep.violation(what, case=tr, files=files, key={"kind": "+".join(kinds), "wrap16": wrap16(tr), "jmpleak": jmpleak(tr)})
     return False
 
 
